@@ -100,6 +100,8 @@ def _requests():
     R["ReadWriteMultipleRegisters"] = (lambda a, q, v: F.ReadWriteMultipleRegistersRequest(
         read_address=a, read_count=q, write_address=a, write_registers=[v]), regq, regt)
     R["ReturnQueryData"] = (lambda a, q, v: F.ReturnQueryDataRequest(v), [1], [1])
+    # loopback of q data words (the reply echoes all of them)
+    R["ReturnQueryDataWords"] = (lambda a, q, v: F.ReturnQueryDataRequest([v] * q), [2], [2, 3, 8, 60])
     R["RestartCommunicationsOption"] = (lambda a, q, v: F.RestartCommunicationsOptionRequest(v % 2 == 1), [1], [1])
     for nm in ("ReturnDiagnosticRegister", "ChangeAsciiInputDelimiter", "ClearCounters", "ReturnBusMessageCount",
                "ReturnBusCommunicationErrorCount", "ReturnBusExceptionErrorCount", "ReturnSlaveMessageCount",
@@ -109,7 +111,7 @@ def _requests():
     return R
 
 
-DIAG_QUICK = ("ReturnQueryData", "ReturnBusMessageCount", "ClearCounters")
+DIAG_QUICK = ("ReturnQueryData", "ReturnQueryDataWords", "ReturnBusMessageCount", "ClearCounters")
 
 
 def make_exact(framing, rname, qtys):
@@ -176,6 +178,8 @@ def obligations(tier):
             if tier == "quick" and rname.startswith(("Return", "Clear", "Change", "Restart")) and rname not in DIAG_QUICK:
                 continue
             qs = qq if tier == "quick" else qt
+            if rname == "ReturnQueryDataWords" and framing == "rtu":
+                continue        # multi-word diagnostic replies are never delivered by the RTU framer (C03's listed finding KF-rtu-diag-response-length)
             if tier == "quick" and framing == "ascii" and rname in ("ReadHoldingRegisters", "ReadCoils"):
                 qs = qs + [qt[-1]]          # ASCII doubles the predicted size: keep the spec maximum in the quick tier
             # one obligation per quantity for the small sweeps (parallel workers); the full thorough sweeps in chunks
